@@ -2,7 +2,7 @@
 SPEC = {
     "module": "C17.Property",
     "targets": ["C17/Property.vo"],
-    "theorems": ["C17_blocks_only_while_current", "C17_wakeup_finishes", "C17_old_order_refuted", "C17_nonvacuous"],
+    "theorems": ["C17_blocks_only_while_current", "C17_wakeup_finishes", "C17_old_order_refuted", "C17_model_satisfies_spec", "C17_nonvacuous"],
     "streams": [{
         "name": "notify", "bin": "c17", "check_module": "C17.Spec",
         "model_expr": "model_final CASE",
